@@ -236,9 +236,13 @@ func (g *gen) leaf(t typ) node {
 			if g.r.Bool() {
 				return node{"\"str\"", "(EConst (DStr " + q("str") + "))"}
 			}
-			// a bare keyword that is directly a body form of a lambda is a known defect (replaced by a new unbound
-			// global variable the first time it is met): it is written as an argument
-			return node{"(prog1 :kw)", "(EProg1 (EConst (DRaw " + q(":kw") + ")) [])"}
+			// a keyword: evaluates to itself in every position, also as a body form of a lambda or defun (since
+			// repo_fixes/C01-11); fresh names so that no earlier program of the process has met the keyword
+			kw := ":kw"
+			if g.r.Bool() {
+				kw = fmt.Sprintf(":%sk%d", g.prefix, g.r.Intn(3))
+			}
+			return node{kw, "(EConst (DRaw " + q(kw) + "))"}
 		case 2:
 			return g.quoteDatum()
 		case 3:
